@@ -495,6 +495,13 @@ compute_image_info (pixman_image_t *image)
         if (image->radial.a >= 0)
 	    break;
 
+	/* Under a projective transform a pixel whose homogeneous
+	 * coordinate is 0 has no position at all and is left transparent
+	 * by radial_get_scanline(), whatever the circles are.
+	 */
+	if (!(flags & FAST_PATH_AFFINE_TRANSFORM))
+	    break;
+
 	/* Fall through */
 
     case CONICAL:
